@@ -177,8 +177,11 @@ def guard_task(task):
     import importlib
     mod = importlib.import_module(task['table_module'])
     comps = {k: v for k, v in vars(mod).items() if callable(v)}
+    if task.get('table_module') == 'contracts.flow':
+        import contracts.engine as E0
+        comps = dict({k: v for k, v in vars(E0).items() if callable(v)}, **comps)
     out = play(task.get('hands', 300), task.get('seed', 0), getattr(mod, task.get('table_name', 'TABLE')), comps,
-               budget_s=task.get('budget_s', 20.0))
+               budget_s=task.get('budget_s', 20.0), wild_fraction=task.get('wild_fraction', 0.3))
     ok = not out['failures'] and out['boundaries'] > 0
     return {'results': [{'id': f"{task['prop']}/native-guard/precondition-components-hold-on-real-hands", 'kind': 'guard', 'prop': task['prop'],
                          'label': 'native', 'status': 'valid' if ok else 'refuted', 'backend': 'CPython', 'seconds': out['seconds'],
